@@ -31,6 +31,20 @@ fn config(name: &str) -> (Vec<u64>, Vec<usize>) {
     }
 }
 
+/// `catch_unwind` for a future: a panic raised while polling it becomes `Err(())`.
+struct CatchUnwind<F>(std::pin::Pin<Box<F>>);
+impl<F: std::future::Future> std::future::Future for CatchUnwind<F> {
+    type Output = Result<F::Output, ()>;
+    fn poll(mut self: std::pin::Pin<&mut Self>, cx: &mut std::task::Context<'_>) -> std::task::Poll<Self::Output> {
+        let f = self.0.as_mut();
+        match std::panic::catch_unwind(std::panic::AssertUnwindSafe(|| f.poll(cx))) {
+            Ok(std::task::Poll::Ready(v)) => std::task::Poll::Ready(Ok(v)),
+            Ok(std::task::Poll::Pending) => std::task::Poll::Pending,
+            Err(_) => std::task::Poll::Ready(Err(())),
+        }
+    }
+}
+
 fn main() {
     quiet_panics();
     let a = args();
@@ -59,9 +73,10 @@ fn main() {
             let healed = Arc::new(AtomicBool::new(scenario == "fresh"));
             let delivered = Arc::new(AtomicU64::new(0));
             let dropped = Arc::new(AtomicU64::new(0));
+            let panics_while_stopping = Arc::new(AtomicU64::new(0));
             let isolated = correct[(seed as usize) % correct.len()];
             let tag = json!({"config": cfgname, "seed": seed, "scenario": scenario});
-            let (rep_o, delivered_o, dropped_o) = (rep.clone(), delivered.clone(), dropped.clone());
+            let (rep_o, delivered_o, dropped_o, pws_o) = (rep.clone(), delivered.clone(), dropped.clone(), panics_while_stopping.clone());
             let res: anyhow::Result<()> = scope::run!(ctx, |ctx, s| async move {
                 // inbound queues (the real prunable queue of the bft crate), replaced when a node restarts
                 let inboxes: Arc<Mutex<BTreeMap<usize, Arc<zksync_concurrency::sync::prunable_mpsc::Sender<FromNetworkMessage>>>>> = Arc::default();
@@ -70,6 +85,7 @@ fn main() {
                 let stop_flags: BTreeMap<usize, Arc<AtomicBool>> = correct.iter().map(|p| (*p, Arc::new(AtomicBool::new(false)))).collect();
                 for p in correct.clone() {
                     let (engine, inboxes, managers, c2, healed, delivered, dropped, stop) = (engines[&p].clone(), inboxes.clone(), managers.clone(), c.clone(), healed.clone(), delivered.clone(), dropped.clone(), stop_flags[&p].clone());
+                    let panics_while_stopping = panics_while_stopping.clone();
                     let correct2 = correct.clone();
                     s.spawn_bg::<()>(async move {
                         let mut incarnation = 0u64;
@@ -82,7 +98,8 @@ fn main() {
                             let (out_tx, mut out_rx) = ctx::channel::unbounded();
                             let cfg = Config::new(c2.keys[p - 1].clone(), MAX_PAYLOAD, time::Duration::milliseconds(TIMEOUT_MS), manager.clone(), EPOCH)?;
                             let mut rng = rand::rngs::StdRng::seed_from_u64(seed * 131 + p as u64 * 7 + incarnation);
-                            let r: Result<(), ctx::Error> = scope::run!(ctx, |ctx, s2| async {
+                            let stop_seen = stop.clone();
+                            let r: Result<Result<(), ctx::Error>, ()> = CatchUnwind(Box::pin(scope::run!(ctx, |ctx, s2| async {
                                 s2.spawn_bg(async {
                                     let _ = runner.run(ctx).await;
                                     Ok(())
@@ -115,8 +132,18 @@ fn main() {
                                     ctx.sleep(time::Duration::milliseconds(5)).await?;
                                 }
                                 Ok(())
-                            })
+                            })))
                             .await;
+                            // A panic inside an incarnation that is being STOPPED (its context was cancelled by the harness) is the death of a process that
+                            // was going to die anyway: counted, not a verdict of this check (DESIGN §9, observation on the proposer watch). Any other panic is.
+                            let r: Result<(), ctx::Error> = match r {
+                                Ok(r) => r,
+                                Err(()) if stop_seen.load(Ordering::SeqCst) || !ctx.is_active() => {
+                                    panics_while_stopping.fetch_add(1, Ordering::SeqCst);
+                                    Ok(())
+                                }
+                                Err(()) => panic!("a replica task panicked while it was NOT being stopped"),
+                            };
                             // tasks of the stopped incarnation end with `Canceled`: that is the stop, not a failure
                             if let Err(ctx::Error::Internal(e)) = r {
                                 return Err(e);
@@ -213,6 +240,7 @@ fn main() {
             let mut g = rep_o.lock().unwrap();
             g.add("delivered", delivered_o.load(Ordering::SeqCst));
             g.add("dropped", dropped_o.load(Ordering::SeqCst));
+            g.add("replica_panicked_while_being_stopped", pws_o.load(Ordering::SeqCst));
             g.distinct += 1;
         })
     });
